@@ -16,10 +16,13 @@ import (
 func init() { Registry["C06"] = C06 }
 
 // tvals gives, per type, distinct values; orderable types have three in the order mid, low, high.
+// The low number is less than one away from the middle one (a comparison through a truncated
+// difference would call them equal); the strings and binaries are ordered lexicographically with
+// a prefix relation (b < ba) and, for binaries, a byte above 127 (unsigned order).
 var tvals = map[string][]val.V{
-	"S":    {val.S("b"), val.S("a"), val.S("c")},
-	"N":    {val.N("2"), val.N("1"), val.N("3")},
-	"B":    {val.B(2), val.B(1), val.B(3)},
+	"S":    {val.S("b"), val.S("ab"), val.S("ba")},
+	"N":    {val.N("2"), val.N("1.5"), val.N("3")},
+	"B":    {val.B(2), val.B(1, 255), val.B(2, 0)},
 	"BOOL": {val.Bool(true), val.Bool(false)},
 	"NULL": {val.Null()},
 	"L":    {val.L(val.S("b"), val.N("2")), val.L(val.N("1"))},
